@@ -91,6 +91,9 @@ func (e *DocumentError) SetIncorrectUserType(s string) {
 
 func (e *DocumentError) SetFile(file *fs.File) {
 	e.file = file
+	// What was computed for the previous file (length, line break symbol) is
+	// void.
+	e.prepared = false
 }
 
 func (e *DocumentError) SetMessage(message string) {
